@@ -248,8 +248,11 @@ theorem cn_all_eligible_fire (p : Params ℝ) (kCN : Nat) (Tsh : ℝ) (s : State
 chunking): by C04 `snowfall_rep_standalone` repetition `i` is the fresh run `Snowflake(seed = i).run()`
 of the template — its time loop is `Flake.run` of the inputs determined by configuration and draw
 schedule (`inputsOf`, arbitrary) — so it is a run to which the run-level theorems above apply:
-it agrees with the same repetition without `cnTemp` on every column `≤ k_CN`, its step at `k ≠ k_CN`
-is the stochastic step, and its `k_CN` is `N+1` when no `cnTemp` is given. -/
+it agrees with the same repetition without `cnTemp` on every column `≤ k_CN` and its step at `k ≠ k_CN`
+is the stochastic step.  PACKAGING: conjunct 1 is C04's statement composed with `Flake.run ∘ inputsOf`;
+conjuncts 2 and 3 are the universally quantified theorems above instantiated at `inp` (they hold for
+ANY inputs and do not use `hp`); the map `inputsOf` from the draw schedule to `Inputs.dice` is a
+parameter, not modelled. -/
 theorem cn_every_repetition {α : Type} [Transc α] (inputsOf : Seeds.Cfg → Seeds.Sched → Inputs α)
     (c : Seeds.Cfg) (nv : Seeds.NV) (chunks : List (List Nat)) (nrep : Nat) (p : Nat × Seeds.Sched)
     (hp : p ∈ Seeds.fallPool Seeds.run c (Seeds.template c nv) chunks ∨
